@@ -1,13 +1,13 @@
 SPECIFICATION Spec
 CONSTANTS
-  Roots = {1, 2, 3}
-  Slots = {0, 2, 3}
+  Roots = {1, 2}
+  Slots = {0, 2, 3, 5}
   Nows = {0, 3, 5, 7}
   SlotsPerEpoch = 2
   NoRoot = 0
   HasPayload = {1}
   Deviation = "none"
-  UseNodes = 0
+  UseNodes = 3
   Retention = 1
 INVARIANTS ExecHeadSound TypeOK MapSound LookupRight ErrorNotSlot
 PROPERTY CleanOnlyOld
